@@ -61,6 +61,8 @@ type httpScenario struct {
 	// 30 ms have passed); with a body larger than the socket buffers the first upload is then still in progress when the
 	// hedge starts its own
 	HoldFirstUpload bool `json:"hold_first_upload,omitempty"`
+	// Backoff: the retry policy from failsafehttp.RetryPolicyBuilder is given a backoff delay (1 ms .. 4 ms) as well
+	Backoff bool `json:"backoff,omitempty"`
 }
 
 func bodyBytes(n int) []byte {
@@ -350,7 +352,12 @@ func runHTTP(sc httpScenario) (out httpOut) {
 	for _, k := range sc.Stack {
 		switch k {
 		case "retry":
-			pols = append(pols, failsafehttp.RetryPolicyBuilder().WithMaxRetries(sc.MaxRetries).Build())
+			rb := failsafehttp.RetryPolicyBuilder().WithMaxRetries(sc.MaxRetries)
+			if sc.Backoff {
+				// further delay configuration on the adapter's builder: a Retry-After still has to be waited for
+				rb.WithBackoff(time.Millisecond, 4*time.Millisecond)
+			}
+			pols = append(pols, rb.Build())
 		case "timeout":
 			pols = append(pols, timeout.With[*http.Response](time.Hour))
 		case "hedge-1h":
@@ -650,6 +657,7 @@ func genHTTP(t *rapid.T) httpScenario {
 		}
 	}
 	sc.MaxRetries = rapid.IntRange(0, 3).Draw(t, "maxRetries")
+	sc.Backoff = rapid.IntRange(0, 2).Draw(t, "backoff") == 0
 	statuses := []int{200, 201, 204, 400, 404, 429, 500, 501, 502, 503}
 	for i, n := 0, rapid.IntRange(1, 5).Draw(t, "nAttempts"); i < n; i++ {
 		a := attemptScript{Status: rapid.SampledFrom(statuses).Draw(t, "status")}
